@@ -242,7 +242,9 @@ func RunParent(a ParentArgs) int {
 				j.Inconclusive = append(j.Inconclusive, "no binary for flavour "+sp.Flavour)
 				continue
 			}
-			j.Flavours = append(j.Flavours, sp.Flavour)
+			if !containsStr(j.Flavours, sp.Flavour) {
+				j.Flavours = append(j.Flavours, sp.Flavour)
+			}
 			lv := sp.Levels
 			if lv == nil {
 				lv = levels
@@ -650,6 +652,15 @@ func (j *Joined) finish(a ParentArgs, p Prop, wallS float64) int {
 func contains(s []string, x string) bool {
 	for _, v := range s {
 		if v == x {
+			return true
+		}
+	}
+	return false
+}
+
+func containsStr(l []string, s string) bool {
+	for _, x := range l {
+		if x == s {
 			return true
 		}
 	}
